@@ -329,6 +329,17 @@ class ViewEventResource(BaseResource):
         except Exception:
             self.log.exception("get-event")
         if event:
+            # an HTTP client holds no NIP-42 token: it is served what an
+            # unauthenticated websocket client would be served
+            authenticator = self.storage.authenticator
+            if authenticator and not await authenticator.can_do(None, "query"):
+                raise falcon.HTTPForbidden
+            check_output = self.storage.check_output
+            if check_output and not check_output(
+                event,
+                {"config": Config, "client_id": req.remote_addr, "auth_token": None},
+            ):
+                raise falcon.HTTPNotFound
             resp.media = event.to_json_object()
         else:
             raise falcon.HTTPNotFound
